@@ -10,7 +10,10 @@ Driver for C15.  `geomv_c15 judge` reads lines
   SPEC <class> <why>    the implementation's answers violate the specification:
                         a panic; `rAB ≠ rBA` (symmetry); the answer demanded by the statement for
                         the transformation named in the tag (`T`/`F`); or, when the pair is
-                        `separated` (matching unambiguous), an answer different from `specSim`.
+                        `separated` (matching unambiguous), an answer different from `specSim`;
+                        an operand modified by a call, an answer that changes when the call is
+                        repeated, or answers that depend on how the operands are laid out in memory
+                        (Similar is a function of the VALUES of its operands).
 -/
 namespace GeomV.C15
 open GeomV
@@ -46,24 +49,34 @@ def judgeLine (line : String) : String :=
         let e := toRat tb
         let ga := Geom.map toRat a
         let gb := Geom.map toRat b
+        -- an optional third token "@layout" names the operand layout (packed / shared / nilled /
+        -- inplace, see harness/cmd/c15/variants.go) whose answers are reported
+        let (rhs, lay) := match rhs with
+          | [r1, r2, l] => if l.startsWith "@" then ([r1, r2], " layout=" ++ (l.drop 1).toString) else (rhs, "")
+          | _ => (rhs, "")
         match rhs with
         | [r1, r2] =>
-          if r1 != "T" && r1 != "F" then s!"SPEC {cls} receiver-A-faulted {r1}"
-          else if r2 != "T" && r2 != "F" then s!"SPEC {cls} receiver-B-faulted {r2}"
-          else if r1 != r2 then s!"SPEC {cls} asymmetric A.Similar(B)={r1} B.Similar(A)={r2}"
+          if r1.startsWith "modified" || r2.startsWith "modified" then
+            s!"SPEC {cls} operand-modified {r1} {r2}{lay}"
+          else if r1.startsWith "unstable" || r2.startsWith "unstable" then
+            s!"SPEC {cls} answer-depends-on-earlier-calls {r1} {r2}{lay}"
+          else if r1 != "T" && r1 != "F" then s!"SPEC {cls} receiver-A-faulted {r1}{lay}"
+          else if r2 != "T" && r2 != "F" then s!"SPEC {cls} receiver-B-faulted {r2}{lay}"
+          else if r1 != r2 then s!"SPEC {cls} asymmetric A.Similar(B)={r1} B.Similar(A)={r2}{lay}"
           else if expect != "?" && r1 != expect then
-            s!"SPEC {cls} statement-says-{expect}-for-{tagName} got={r1}"
+            s!"SPEC {cls} statement-says-{expect}-for-{tagName} got={r1}{lay}"
           else
             let sepd := Spec.separated ga e gb && Spec.separated gb e ga
             let s1 := Spec.specSim ga e gb
             let s2 := Spec.specSim gb e ga
             if s1 != s2 then s!"BAD spec-not-symmetric {cls}"
-            else if sepd && b2s s1 != r1 then s!"SPEC {cls} separated-pair-spec={b2s s1} got={r1}"
+            else if sepd && b2s s1 != r1 then s!"SPEC {cls} separated-pair-spec={b2s s1} got={r1}{lay}"
             else if expect != "?" && !sepd then s!"BAD generator-pair-not-separated {cls}"
             else
               let m1 := b2s (sim ga e gb)
               let m2 := b2s (sim gb e ga)
-              if m1 != r1 || m2 != r2 then s!"DIFF {cls} model={m1},{m2} impl={r1},{r2}"
+              if lay != "" then s!"SPEC {cls} answer-depends-on-operand-layout got={r1},{r2}{lay}"
+              else if m1 != r1 || m2 != r2 then s!"DIFF {cls} model={m1},{m2} impl={r1},{r2}"
               else s!"OK {cls}{if sepd then "" else "-unsep"}"
         | _ => s!"SPEC {cls} malformed-answer {" ".intercalate rhs}"
       | _ => "BAD parse-B"
